@@ -280,9 +280,12 @@ func genC27Small(g *Gen) {
 				b = append(c27Uvarint(g.R.BoundaryU64()), g.R.Bytes(g.R.Intn(40))...)
 			case 2: // small declared length with enough / not enough data
 				l := g.R.Intn(40)
-				b = append(c27Uvarint(uint64(l)), g.R.Bytes(l+g.R.Intn(5)-2+2*g.R.Intn(2))...)
+				b = append(c27Uvarint(uint64(l)), g.R.Bytes(max(0, l+g.R.Intn(5)-2+2*g.R.Intn(2)))...)
 			default:
 				b = g.R.Bytes(g.R.Range(30, 50))
+			}
+			if kind == "bool" && len(b) > 0 && g.R.Chance(70) {
+				b[0] = byte(g.R.Intn(3))
 			}
 			g.Count("cu:" + kind)
 			g.Op("cu", "%s %s %d", kind, Hex(b), []int{0, 1, 16, 256, 4 << 20}[g.R.Intn(5)])
@@ -304,7 +307,7 @@ func c27Uvarint(v uint64) []byte {
 
 // the modelled codecs also go through the generic round-trip/garbage ops
 func init() {
-	c27Reg(&c27Codec{name: "propose.payload", selfDelim: false,
+	c27Reg(&c27Codec{name: "propose.payload", selfDelim: false, canon: true,
 		gen: func(f *c27Filler) any {
 			type pv struct {
 				HS  uint16
@@ -321,7 +324,7 @@ func init() {
 			hs, cmd, err := propose.DecodePayload(b)
 			return [2]any{hs, cmd}, err
 		}})
-	c27Reg(&c27Codec{name: "propose.forward", selfDelim: true,
+	c27Reg(&c27Codec{name: "propose.forward", selfDelim: true, canon: false,
 		gen: func(f *c27Filler) any {
 			r := c27New[propose.ForwardRequest](f)
 			if r.SlotID == 0 {
@@ -335,7 +338,7 @@ func init() {
 		},
 		enc: func(v any) ([]byte, error) { return propose.EncodeForwardRequest(v.(propose.ForwardRequest)) },
 		dec: func(b []byte) (any, error) { return propose.DecodeForwardRequest(b) }})
-	c27Reg(&c27Codec{name: "clusternet.header", selfDelim: false,
+	c27Reg(&c27Codec{name: "clusternet.header", selfDelim: false, canon: true,
 		gen: func(f *c27Filler) any { return c27New[[]byte](f) },
 		enc: func(v any) ([]byte, error) {
 			return append(clusternet.PutHeader(nil, 3, 9), v.([]byte)...), nil
